@@ -54,11 +54,32 @@ class BaseCustom(BaseException):
     pass
 
 
+def _unprintable(self: Any) -> str:
+    raise TypeError("this exception cannot be printed (its message needs an attribute that was never set)")
+
+
+# an application exception whose str() raises (a half-initialised exception object, a __str__ returning a non-string): for the
+# library it is an exception like any other; isinstance() and the class name are those of its base.  (repr() is left alone:
+# trio itself formats `{exc!r}` when a nursery block ends with an exception, so an exception whose repr() raises breaks the
+# backend, not asphalt.)
+UnprintableCustom = type("CustomError", (CustomError,), {"__str__": _unprintable, "__module__": __name__})
+
+
+def safe_repr(obj: Any) -> str:
+    try:
+        return repr(obj)
+    except Exception:
+        return f"<{type(obj).__name__} object whose repr() raises>"
+
+
 def make_exc(kind: str, tag: Any) -> BaseException:
     if kind == "ValueError":
         return ValueError(f"injected {tag}")
     if kind == "Custom":
-        return CustomError(f"injected {tag}")
+        import zlib
+
+        cls = UnprintableCustom if zlib.crc32(str(tag).encode()) % 2 else CustomError
+        return cls(f"injected {tag}")
     if kind == "Group":
         return ExceptionGroup(f"injected group {tag}", [ValueError(f"member {tag}"), KeyError(f"member2 {tag}")])
     if kind == "BaseGroup":
